@@ -11,7 +11,8 @@ PROPS = {
               'from children() only (parent, child(i), nesting, ancestors, next/prev, next_all/prev_all incl. the root, '
               'Pre/Post/Level/Visitor traversals from the root and from inner nodes, line/character columns). '
               'Non-trivial = distinct (file, node) with >= 2 children in a file containing an ERROR node or a multi-byte character.'
-              ' Additions: source mutations `long line` (a 4-5 KiB single line with a multi-byte prefix) and `lone CR`.'),
+              ' Additions: source mutations `long line` (a 4-5 KiB single line with a multi-byte prefix) and `lone CR`.'
+              ' Multi-byte insertions include plane-15/16 code points (lead byte 0xF3/0xF4).'),
         floor={'quick': 100000, 'thorough': 1000000},
         assumptions=['children() enumerates the children of a node (it is the baseline of every clause)',
                      'sibling-sequence clause skipped under parents that have a zero-width child (statement)'],
@@ -115,7 +116,8 @@ PROPS = {
               'CLI: for 8 (quick) / 23 (thorough) languages a directory of corpus files is searched with `ast-grep run -p .. -l .. --strictness .. [--selector ..] --json=stream` and '
               '`ast-grep scan -r rule.yml --json=stream`; the multiset of (file, byte range) must equal the library answer per file and the H1 event log of the binary (literal prefilter) must be empty. '
               'evaluations = matcher/source cases + CLI invocations. Non-trivial = distinct cases whose matcher has a kind set (acceleration active) and matches >= 1 node; rule sets with >= 2 rules; CLI queries with >= 1 expected match.'
-              ' Additions: the CLI part covers all 23 languages in both tiers and adds, for every cut pattern, variants with one lower-case word upper-cased (case-insensitive keywords); utilities include recursive / forward-referencing ones; every other rule document is loaded together with global utilities that carry the ids of its local utilities, and violations that disappear without them are attributed to the shadowing.'),
+              ' Additions: the CLI part covers all 23 languages in both tiers and adds, for every cut pattern, variants with one lower-case word upper-cased (case-insensitive keywords); utilities include recursive / forward-referencing ones; every other rule document is loaded together with global utilities that carry the ids of its local utilities, and violations that disappear without them are attributed to the shadowing.'
+              ' Selector queries of the CLI part run with and without --strictness.'),
         floor={'quick': 10000, 'thorough': 60000},
         level_text='Tens of thousands of searches and ~50 M observed prune decisions per quick run, each prune decision individually checked by evaluating the skipped work; held on the executions observed.',
         level_note='Trusted: Pre-order dfs() (checked by C19), match_node on a single node (judged by C02-C05). The prune hooks only ADD evaluation; the CLI comparison uses the hooked release binary.',
@@ -178,7 +180,8 @@ PROPS = {
               'and confirmed alone under a 10 s CPU limit. CLI part: 220 (quick) / 1500 (thorough) of those rule files through `ast-grep scan -r|--inline-rules [-j 4]` and 90 / 600 generated projects '
               '(sgconfig variants, rule/util/test/snapshot files with wild values) through scan / test [-U]: no panic message, no signal, no CPU overrun, no deadlock (all threads sleeping with unchanged CPU time on three samples). '
               'evaluations = documents + CLI invocations. Non-trivial = accepted documents that produced >= 1 match, documents rejected by a layer deeper than YAML syntax, CLI runs.'
-              ' Additions: generated rules carry files / ignores / severity / labels / note / url / metadata; accepted rules are also scanned over hostile texts (mixed-case non-ASCII identifiers, CRLF, tabs, astral characters, deep nesting); project configs perturb exactly one sgconfig key with typed wild values (empty lists, invalid globs); all printers (coloured, short, GitHub, JSON, -U) run; the full product severity x files/ignores x fix x printer for one matching rule; a process whose threads only poll each other counts as hung, and a panic message from ast-grep\'s code is reported even when the watchdog cannot classify the process.'),
+              ' Additions: generated rules carry files / ignores / severity / labels / note / url / metadata; accepted rules are also scanned over hostile texts (mixed-case non-ASCII identifiers, CRLF, tabs, astral characters, deep nesting); project configs perturb exactly one sgconfig key with typed wild values (empty lists, invalid globs); all printers (coloured, short, GitHub, JSON, -U) run; the full product severity x files/ignores x fix x printer for one matching rule; a process whose threads only poll each other counts as hung, and a panic message from ast-grep\'s code is reported even when the watchdog cannot classify the process.'
+              ' languageInjections entries overlap or repeat (tagged templates in the hostile sources); rewriter fixes are objects with expandStart / expandEnd, with and without joinBy.'),
         floor={'quick': 20000, 'thorough': 1000000},
         level_text='Tens of thousands (quick) to millions (thorough) of hostile configurations executed in isolated children; crash-freedom is sampled, not exhausted.',
         level_note=('Trusted: the process-level observations (exit status, signals, /proc task states, stderr). The harness build has overflow checks and debug assertions ON, the CLI is the plain release build; '
@@ -242,7 +245,7 @@ PROPS = {
               'single-file run per file; the H3 log must show exactly one produce_begin/produce_end per eligible path, items == send == recv, a single consumer thread. Fault enumeration: 12 files per tree '
               'are made empty / non-UTF-8 / larger than both size limits / a directory of the same name / a dangling symlink / unreadable (process runs as uid nobody): no record for them, all other records unchanged, output well-formed. '
               'evaluations = CLI runs over a tree. distinct_nontrivial = distinct interleaving signatures (hash of the (event, path) sequence of the log) actually observed; distinct consume orders are reported too.'
-              ' Additional workloads: a 600-800 (quick) / 1500-3000 (thorough) file tree with a slow consumer (recv failpoint or a stdout reader that starts late; the evidence reports the maximum number of items in flight) and files deleted while the walk is in progress (every other file keeps its records, a vanished file contributes all of its records or none).'),
+              ' Additional workloads: a 600-800 (quick) / 1500-3000 (thorough) file tree with a slow consumer (recv failpoint or a stdout reader that starts late; the evidence reports the maximum number of items in flight) and files deleted while the walk is in progress (every other file keeps its records, a vanished file contributes all of its records or none). One rule carries `ignores`, one Rust rule is restricted by `files` globs (so a language whose rules all have globs still has to be walked), and the modes `run --inspect entity` / `scan --inspect entity` (tracing on stderr while workers produce) are part of every tree.'),
         floor={'quick': 60, 'thorough': 2000},
         level_text='Every kind of per-file fault is injected in every tree and every run is checked both at the output and in the event log; schedules are sampled (the evidence lists how many distinct interleavings occurred), not enumerated.',
         level_note='Trusted: the hook events (single write(2) per line, emitted around produce/send/recv), the single-file runs as definition of "each file alone". The thorough tier repeats the tree workload on a ThreadSanitizer build of the CLI (DESIGN.md §9.7).',
@@ -290,7 +293,8 @@ PROPS = {
               'watchdog => inconclusive) the server must still answer a request and the LAST diagnostics published for every open URI must be those of the highest-version text received since its last open '
               '(reference: a fresh session opening exactly that text). evaluations = CLI invocations + LSP sessions. Non-trivial = front-end cases with >= 2 findings from >= 2 rules, histories with >= 3 notifications on one URI; '
               'the evidence counts distinct server-side interleavings seen through H4.'
-              ' Additions: texts contain multi-line statements and non-ASCII prefixes; 96 (quick) / 1200 (thorough) histories run 8 at a time, with a cooperative-yield failpoint at the await between storing a changed document and publishing its diagnostics; the thorough tier repeats 64 histories on a ThreadSanitizer build.'),
+              ' Additions: texts contain multi-line statements and non-ASCII prefixes; 96 (quick) / 1200 (thorough) histories run 8 at a time, with a cooperative-yield failpoint at the await between storing a changed document and publishing its diagnostics; the thorough tier repeats 64 histories on a ThreadSanitizer build.'
+              ' One rule is fixable and matches nested nodes (all report formats must list every nested match; the short style is compared for fix-less rules only).'),
         floor={'quick': 200, 'thorough': 3000},
         level_text='Hundreds of cross-front-end comparisons and tens to hundreds of hostile LSP histories per run; liveness is decided as bounded progress plus a /proc deadlock test; held on the histories and schedules that occurred.',
         level_note='Trusted: the stdlib JSON-RPC client (drivers/lspclient.py), regex parsers of the github/short formats, the fresh-session reference. Texts contain no ast-grep-ignore comments (C14 covers them).',
